@@ -1,6 +1,440 @@
+/-
+  C16 — equality and serialisation depend only on content, never on representation.
+
+  Model of `biom/table.py`:
+    * `_data_equality`   → `dataEq`   (shape, stored-entry count, element-wise difference count)
+    * `eliminate_zeros`  → `eliminateZeros` (as the constructor and the `nnz` property apply it)
+    * constructor        → `construct` (metadata normalisation + `eliminateZeros`)
+    * `__eq__`           → `tableEq`, `descriptive_equality` → `describe` (two separate chains)
+    * read accessors     → `Acc.apply` (they re-lay `_data`: `nnz` eliminates zeros, `data`/`iter`
+                           convert between CSR and CSC, `==` converts the receiver to CSR)
+
+  A represented table `Rep` carries the flat layout; `Rep.content` is the abstract `Biom.Table`.
+  Layout conversions done by scipy (`tocsr`, `tocsc`) are a parameter `conv` with a recorded
+  contract (`LayoutConv` in Lemmas/C16.lean); the driver instantiates it with the identity.
+
+  `holdsPair` / `holdsFamily` / `holdsKernel` are the declarative predicates, stated on what the
+  harness observed on the real code (contents read back, results of `==`, `!=`,
+  `descriptive_equality`, parsed exports, query answers).
+-/
 import BiomModel.Codec
 open Lean
+
 namespace Biom.C16
-/-- stub: not built yet -/
-def handle (_req : Json) : Codec.R Json := .error "C16: model not built yet"
+
+variable {α : Type}
+
+/-! ## kernel level: `_data_equality` on two compressed layouts of the same orientation -/
+
+/-- scipy `nnz` of a compressed matrix (`indptr[-1]`): the number of *stored* entries -/
+def storedCount (c : CS α) : Nat := c.indptr.getD c.nMajor 0
+
+/-- the minor indices stored in either vector: what `csr_binop_csr` walks -/
+def unionIdx (e₁ e₂ : List (Nat × α)) : List Nat :=
+  e₁.map (·.1) ++ (e₂.map (·.1)).filter (fun j => !(e₁.map (·.1)).contains j)
+
+/-- number of positions of one major vector kept by `A != B` (the operands differ there) -/
+def neRow [Zero α] [DecidableEq α] (e₁ e₂ : List (Nat × α)) : Nat :=
+  (unionIdx e₁ e₂).countP (fun j => decide (CS.entryAt e₁ j ≠ CS.entryAt e₂ j))
+
+/-- `(A != B).nnz` -/
+def neCount [Zero α] [DecidableEq α] (c₁ c₂ : CS α) : Nat :=
+  ((List.range c₁.nMajor).map (fun i => neRow (c₁.slice i) (c₂.slice i))).sum
+
+/-- `_data_equality` (the dtype test is constant: the constructor casts every matrix to float) -/
+def dataEq [Zero α] [DecidableEq α] (c₁ c₂ : CS α) : Bool :=
+  if c₁.nMajor ≠ c₂.nMajor ∨ c₁.nMinor ≠ c₂.nMinor then false
+  else if storedCount c₁ ≠ storedCount c₂ then false
+  else if neCount c₁ c₂ > 0 then false
+  else true
+
+/-! ## `eliminate_zeros` -/
+
+/-- running totals `[0, l₀, l₀+l₁, …]` -/
+def prefixSums (ls : List Nat) : List Nat :=
+  (List.range (ls.length + 1)).map (fun i => (ls.take i).sum)
+
+/-- the compressed layout holding exactly the given entries, vector by vector, in the given order -/
+def ofEntries (nMinor : Nat) (ents : List (List (Nat × α))) : CS α :=
+  { nMajor := ents.length, nMinor := nMinor,
+    indptr := prefixSums (ents.map List.length),
+    indices := ents.flatten.map (·.1),
+    data := ents.flatten.map (·.2) }
+
+/-- per major vector, the stored entries whose value is not zero, order kept -/
+def keptEntries [Zero α] [DecidableEq α] (c : CS α) : List (List (Nat × α)) :=
+  (List.range c.nMajor).map (fun i => (c.slice i).filter (fun e => decide (e.2 ≠ 0)))
+
+/-- `csr_eliminate_zeros`: compact every vector, rewrite `indptr` -/
+def eliminateZeros [Zero α] [DecidableEq α] (c : CS α) : CS α :=
+  ofEntries c.nMinor (keptEntries c)
+
+def noStoredZerosB [Zero α] [DecidableEq α] (c : CS α) : Bool := c.data.all (fun v => decide (v ≠ 0))
+
+/-! ## table level -/
+
+inductive Fmt where
+  | csr | csc
+  deriving Repr, DecidableEq, BEq
+
+/-- a table as the implementation holds it: identity fields plus one concrete layout of the matrix
+(kept row-major here; `fmt` records which scipy format `_data` currently has) -/
+structure Rep (α : Type) where
+  ttype : Option String
+  obs : List Id
+  samp : List Id
+  omd : Option (List Md)
+  smd : Option (List Md)
+  data : CS α
+  fmt : Fmt := .csr
+
+/-- abstract content of a represented table -/
+def Rep.content [Zero α] (r : Rep α) : Table α :=
+  { obs := r.obs, samp := r.samp, rows := r.data.toDense, omd := r.omd, smd := r.smd, ttype := r.ttype }
+
+/-- constructor's metadata normalisation: all entries falsy (`None` or `{}`) → no metadata;
+otherwise `None` entries become empty entries (`_cast_metadata`) -/
+def normMd : Option (List (Option Md)) → Option (List Md)
+  | none => none
+  | some l => if l.all (fun m => match m with | none => true | some e => e.isEmpty) then none
+              else some (l.map (fun m => m.getD []))
+
+/-- `Table.__init__` on a matrix already in CSR form (`tocsr`/`_to_sparse` are scipy's) -/
+def construct [Zero α] [DecidableEq α] (ttype : Option String) (obs samp : List Id)
+    (omd smd : Option (List (Option Md))) (input : CS α) : Rep α :=
+  { ttype := ttype, obs := obs, samp := samp, omd := normMd omd, smd := normMd smd,
+    data := eliminateZeros input, fmt := .csr }
+
+/-- `__eq__` (both operands are tables) -/
+def tableEq [Zero α] [DecidableEq α] (r₁ r₂ : Rep α) : Bool :=
+  if r₁.ttype ≠ r₂.ttype then false
+  else if r₁.obs ≠ r₂.obs then false
+  else if r₁.samp ≠ r₂.samp then false
+  else if r₁.omd ≠ r₂.omd then false
+  else if r₁.smd ≠ r₂.smd then false
+  else if !dataEq r₁.data r₂.data then false
+  else true
+
+inductive Desc where
+  | equal | type | obsIds | sampIds | obsMd | sampMd | data
+  deriving Repr, DecidableEq, BEq
+
+def Desc.name : Desc → String
+  | .equal => "equal" | .type => "type" | .obsIds => "obs_ids" | .sampIds => "samp_ids"
+  | .obsMd => "obs_md" | .sampMd => "samp_md" | .data => "data"
+
+/-- `descriptive_equality` -/
+def describe [Zero α] [DecidableEq α] (r₁ r₂ : Rep α) : Desc :=
+  if ¬ (r₁.ttype = r₂.ttype) then .type
+  else if ¬ (r₁.obs = r₂.obs) then .obsIds
+  else if ¬ (r₁.samp = r₂.samp) then .sampIds
+  else if ¬ (r₁.omd = r₂.omd) then .obsMd
+  else if ¬ (r₁.smd = r₂.smd) then .sampMd
+  else if !dataEq r₁.data r₂.data then .data
+  else .equal
+
+/-- `copy()` deep-copies every field, layout included -/
+def Rep.copy (r : Rep α) : Rep α := { r with }
+
+/-! ## read accessors and what they do to the stored layout -/
+
+inductive Acc where
+  | nnz          -- `t.nnz`: eliminate_zeros in place
+  | vecObs       -- `data(id, 'observation')`, `iter(axis='observation')`: `_get_row` → tocsr
+  | vecSamp      -- `data(id, 'sample')`, `iter()`: `_get_col` → tocsc
+  | plain        -- `matrix_data`, `get_value_by_ids`, `sum`: nothing is re-laid
+  deriving Repr, DecidableEq, BEq
+
+def Acc.apply [Zero α] [DecidableEq α] (conv : CS α → CS α) : Acc → Rep α → Rep α
+  | .nnz, r => { r with data := eliminateZeros r.data }
+  | .vecObs, r => if r.fmt = .csr then r else { r with data := conv r.data, fmt := .csr }
+  | .vecSamp, r => if r.fmt = .csc then r else { r with data := conv r.data, fmt := .csc }
+  | .plain, r => r
+
+/-- does `_data_equality` get as far as `self._data = self._data.tocsr()`? -/
+def reachesConversion [Zero α] [DecidableEq α] (r₁ r₂ : Rep α) : Bool :=
+  decide (r₁.ttype = r₂.ttype ∧ r₁.obs = r₂.obs ∧ r₁.samp = r₂.samp ∧ r₁.omd = r₂.omd ∧ r₁.smd = r₂.smd) &&
+  decide (r₁.data.nMajor = r₂.data.nMajor ∧ r₁.data.nMinor = r₂.data.nMinor) &&
+  decide (storedCount r₁.data = storedCount r₂.data)
+
+/-- side effect of evaluating `r₁ == r₂` on the receiver `r₁` -/
+def eqEffect [Zero α] [DecidableEq α] (conv : CS α → CS α) (r₁ r₂ : Rep α) : Rep α :=
+  if reachesConversion r₁ r₂ then Acc.apply conv .vecObs r₁ else r₁
+
+/-- one checkpoint: what the six comparisons return -/
+structure Check where
+  eqAB : Bool
+  eqBA : Bool
+  neAB : Bool
+  neBA : Bool
+  descAB : String
+  descBA : String
+  deriving Repr, DecidableEq, BEq
+
+/-- the harness evaluates, in this order, `a==b`, `b==a`, `a!=b`, `b!=a`, `a.descriptive_equality(b)`,
+`b.descriptive_equality(a)`; each evaluation may re-lay its receiver -/
+def checkpoint [Zero α] [DecidableEq α] (conv : CS α → CS α) (a b : Rep α) : Check × Rep α × Rep α :=
+  let e1 := tableEq a b
+  let a1 := eqEffect conv a b
+  let e2 := tableEq b a1
+  let b1 := eqEffect conv b a1
+  let n1 := !(tableEq a1 b1)
+  let a2 := eqEffect conv a1 b1
+  let n2 := !(tableEq b1 a2)
+  let b2 := eqEffect conv b1 a2
+  let d1 := (describe a2 b2).name
+  let a3 := eqEffect conv a2 b2
+  let d2 := (describe b2 a3).name
+  let b3 := eqEffect conv b2 a3
+  ({ eqAB := e1, eqBA := e2, neAB := n1, neBA := n2, descAB := d1, descBA := d2 }, a3, b3)
+
+/-- a step of a history: an accessor on the first (`false`) or second (`true`) operand -/
+abbrev Step := Bool × Acc
+
+def applyStep [Zero α] [DecidableEq α] (conv : CS α → CS α) (s : Step) (a b : Rep α) : Rep α × Rep α :=
+  if s.1 then (a, s.2.apply conv b) else (s.2.apply conv a, b)
+
+/-- checkpoint, then for every step: the step followed by a checkpoint -/
+def runChecks [Zero α] [DecidableEq α] (conv : CS α → CS α) : List Step → Rep α → Rep α → List Check × Rep α × Rep α
+  | [], a, b =>
+    let (c, a', b') := checkpoint conv a b
+    ([c], a', b')
+  | s :: ss, a, b =>
+    let (c, a', b') := checkpoint conv a b
+    let (a'', b'') := applyStep conv s a' b'
+    let (cs, af, bf) := runChecks conv ss a'' b''
+    (c :: cs, af, bf)
+
+/-! ## the property, on observations only -/
+
+/-- what was observed of one pair of tables -/
+structure PairObs (α : Type) where
+  a : Table α                -- content of the first operand read back before anything else
+  b : Table α
+  a' : Table α               -- content read back after the whole history
+  b' : Table α
+  checks : List Check        -- one per checkpoint
+  exports : List (String × Table α × Table α)   -- format, parsed export of a, of b
+  queries : List (String × String × String)     -- query, answer of a, answer of b
+
+/-- `descriptive_equality` must say "equal" exactly for equal content, and otherwise name a
+component that really differs -/
+def descOk [DecidableEq α] (a b : Table α) (d : String) : Bool :=
+  if d = "equal" then decide (a = b)
+  else if d = "type" then decide (a.ttype ≠ b.ttype)
+  else if d = "obs_ids" then decide (a.obs ≠ b.obs)
+  else if d = "samp_ids" then decide (a.samp ≠ b.samp)
+  else if d = "obs_md" then decide (a.omd ≠ b.omd)
+  else if d = "samp_md" then decide (a.smd ≠ b.smd)
+  else if d = "data" then decide (a.rows ≠ b.rows)
+  else false
+
+def checkOk [DecidableEq α] (a b : Table α) (c : Check) : Bool :=
+  c.eqAB == decide (a = b) && c.eqBA == decide (a = b) &&
+  c.neAB == !decide (a = b) && c.neBA == !decide (a = b) &&
+  descOk a b c.descAB && descOk b a c.descBA
+
+open Codec in
+def holdsPair [DecidableEq α] (o : PairObs α) : Verdict :=
+  allV [
+    chk "accessors-changed-content" (decide (o.a' = o.a) && decide (o.b' = o.b)),
+    chk "eq-iff-content" (o.checks.all (checkOk o.a o.b)),
+    chk "no-checkpoint" (!o.checks.isEmpty),
+    chk "exports-of-equal-tables-differ" (decide (o.a = o.b → ∀ e ∈ o.exports, e.2.1 = e.2.2)),
+    chk "queries-of-equal-tables-differ" (decide (o.a = o.b → ∀ q ∈ o.queries, q.2.1 = q.2.2))]
+
+/-- a family of tables with the full matrix of observed `==` results -/
+structure FamilyObs (α : Type) where
+  ts : List (Table α)
+  eqs : List (List Bool)     -- eqs[i][j] = observed `ts[i] == ts[j]`
+
+def FamilyObs.eq (o : FamilyObs α) (i j : Nat) : Bool := (o.eqs.getD i []).getD j false
+
+open Codec in
+def holdsFamily [DecidableEq α] (o : FamilyObs α) : Verdict :=
+  let n := o.ts.length
+  let idx := List.range n
+  allV [
+    chk "matrix-shape" (o.eqs.length == n && o.eqs.all (·.length == n)),
+    chk "reflexive" (idx.all (fun i => o.eq i i)),
+    chk "symmetric" (idx.all (fun i => idx.all (fun j => o.eq i j == o.eq j i))),
+    chk "transitive" (idx.all (fun i => idx.all (fun j => idx.all (fun k =>
+      !(o.eq i j && o.eq j k) || o.eq i k)))),
+    chk "eq-iff-content" (idx.all (fun i => idx.all (fun j =>
+      o.eq i j == decide (o.ts[i]? = o.ts[j]?))))]
+
+/-- kernel level: what `_data_equality` returned on two scipy matrices and their dense views -/
+structure KernelObs (α : Type) where
+  shape₁ : Nat × Nat
+  shape₂ : Nat × Nat
+  dense₁ : List (List α)
+  dense₂ : List (List α)
+  storedZeros : Bool          -- some operand holds an explicitly stored zero
+  result : Bool
+
+open Codec in
+/-- for matrices without stored zeros (all that a table can hold) the answer is content equality -/
+def holdsKernel [DecidableEq α] (o : KernelObs α) : Verdict :=
+  chk "data-eq-iff-dense" (o.storedZeros ||
+    o.result == decide (o.shape₁ = o.shape₂ ∧ o.dense₁ = o.dense₂))
+
+/-! ## model observations -/
+
+def modelPair [Zero α] [DecidableEq α] (conv : CS α → CS α)
+    (exps : List (String × (Table α → Table α))) (qs : List (String × (Table α → String)))
+    (steps : List Step) (a b : Rep α) : PairObs α :=
+  let (cs, af, bf) := runChecks conv steps a b
+  { a := a.content, b := b.content, a' := af.content, b' := bf.content, checks := cs,
+    exports := exps.map (fun e => (e.1, e.2 a.content, e.2 b.content)),
+    queries := qs.map (fun q => (q.1, q.2 a.content, q.2 b.content)) }
+
+def modelFamily [Zero α] [DecidableEq α] (rs : List (Rep α)) : FamilyObs α :=
+  { ts := rs.map Rep.content, eqs := rs.map (fun r => rs.map (fun s => tableEq r s)) }
+
+def modelKernel [Zero α] [DecidableEq α] (c₁ c₂ : CS α) : KernelObs α :=
+  { shape₁ := (c₁.nMajor, c₁.nMinor), shape₂ := (c₂.nMajor, c₂.nMinor),
+    dense₁ := c₁.toDense, dense₂ := c₂.toDense,
+    storedZeros := !(noStoredZerosB c₁ && noStoredZerosB c₂),
+    result := dataEq c₁ c₂ }
+
+/-! ## JSON glue -/
+open Codec
+
+def asMdIn (j : Json) : R (Option Md) :=
+  match j with
+  | .null => pure none
+  | v => do pure (some (← asMd v))
+
+def asAcc (s : String) : R Acc :=
+  match s with
+  | "nnz" => pure .nnz
+  | "data_obs" | "iter_obs" => pure .vecObs
+  | "data_samp" | "iter_samp" => pure .vecSamp
+  | "matrix_data" | "get_value" | "sum" => pure .plain
+  | s => .error s!"bad accessor {s}"
+
+def asFmt (s : String) : R Fmt :=
+  match s with
+  | "csr" => pure .csr
+  | "csc" => pure .csc
+  | s => .error s!"bad format {s}"
+
+def fmtName : Fmt → String
+  | .csr => "csr" | .csc => "csc"
+
+/-- operand: {"ttype","obs","samp","omd_in","smd_in","layout":CS,"ctor":bool} -/
+def asRep (j : Json) : R (Rep Rat) := do
+  let ttype ← optF asStr j "type"
+  let obs ← listF asStr j "obs"
+  let samp ← listF asStr j "samp"
+  let omd ← optF (asList asMdIn) j "omd_in"
+  let smd ← optF (asList asMdIn) j "smd_in"
+  let layout ← asCS (← fld j "layout")
+  if (← boolF j "ctor") then
+    pure (construct ttype obs samp omd smd layout)
+  else
+    pure { ttype, obs, samp, omd := normMd omd, smd := normMd smd, data := layout,
+           fmt := (← asFmt (← strFD j "fmt" "csr")) }
+
+def asCheck (j : Json) : R Check := do
+  pure { eqAB := (← boolF j "eq_ab"), eqBA := (← boolF j "eq_ba"), neAB := (← boolF j "ne_ab"),
+         neBA := (← boolF j "ne_ba"), descAB := (← strF j "desc_ab"), descBA := (← strF j "desc_ba") }
+
+def checkToJson (c : Check) : Json :=
+  Json.mkObj [("eq_ab", .bool c.eqAB), ("eq_ba", .bool c.eqBA), ("ne_ab", .bool c.neAB),
+    ("ne_ba", .bool c.neBA), ("desc_ab", .str c.descAB), ("desc_ba", .str c.descBA)]
+
+def asStep (j : Json) : R Step := do
+  match (← asArr j) with
+  | [s, a] => pure ((← asNat s) == 1, (← asAcc (← asStr a)))
+  | _ => .error "step must be [side, accessor]"
+
+def asTriple (f : Json → R β) (j : Json) : R (String × β × β) := do
+  match (← asArr j) with
+  | [n, x, y] => pure ((← asStr n), (← f x), (← f y))
+  | _ => .error "triple must be [name, a, b]"
+
+/-- scipy contract monitor: the layout a real table holds at the end is well-formed, carries no
+stored zero, and denotes the content read back through the public API -/
+def layoutOk (content : Table Rat) (fmt : String) (c : CS Rat) : Bool :=
+  c.wfb && noStoredZerosB c &&
+  (if fmt == "csc" then c.toDense == transposeGrid content.samp.length content.rows
+   else c.toDense == content.rows)
+
+def handlePair (req : Json) : R Json := do
+  let ja ← fld req "a"
+  let jb ← fld req "b"
+  let steps ← listF asStep req "steps"
+  let obs : PairObs Rat := {
+    a := (← asTable (← fld ja "content")), b := (← asTable (← fld jb "content")),
+    a' := (← asTable (← fld ja "content_after")), b' := (← asTable (← fld jb "content_after")),
+    checks := (← listF asCheck req "checks"),
+    exports := (← listF (asTriple asTable) req "exports"),
+    queries := (← listF (asTriple asStr) req "queries") }
+  let ra ← asRep (← fld ja "model_in")
+  let rb ← asRep (← fld jb "model_in")
+  let (mchecks, af, bf) := runChecks id steps ra rb
+  let v := holdsPair obs
+  let fmtA ← strF ja "fmt_after"
+  let fmtB ← strF jb "fmt_after"
+  let contract :=
+    layoutOk obs.a' fmtA (← asCS (← fld ja "layout_after")) &&
+    layoutOk obs.b' fmtB (← asCS (← fld jb "layout_after"))
+  let agreeChecks := decide (mchecks = obs.checks)
+  let agreeContent := decide (ra.content = obs.a) && decide (rb.content = obs.b)
+  let agreeFmt := fmtName af.fmt == fmtA && fmtName bf.fmt == fmtB
+  let what : List String :=
+    (if agreeChecks then [] else ["checks"]) ++ (if agreeContent then [] else ["content"]) ++
+    (if agreeFmt then [] else ["format"]) ++ (if contract then [] else ["scipy-contract"])
+  pure (Json.mkObj (verdictToJson v ++ [
+    ("agree", .bool what.isEmpty), ("differs", strsToJson what),
+    ("model", Json.mkObj [("checks", .arr (mchecks.map checkToJson).toArray),
+      ("fmt_a", .str (fmtName af.fmt)), ("fmt_b", .str (fmtName bf.fmt)),
+      ("same_content", .bool (decide (ra.content = rb.content)))])]))
+
+def handleFamily (req : Json) : R Json := do
+  let items ← listF pure req "items"
+  let ts ← items.mapM (fun j => do asTable (← fld j "content"))
+  let rs ← items.mapM (fun j => do asRep (← fld j "model_in"))
+  let eqs ← listF (asList asBool) req "eqs"
+  let obs : FamilyObs Rat := { ts, eqs }
+  let m := modelFamily rs
+  let v := holdsFamily obs
+  let agree := decide (m.eqs = obs.eqs) && decide (m.ts = obs.ts)
+  pure (Json.mkObj (verdictToJson v ++ [("agree", .bool agree),
+    ("model", Json.mkObj [("eqs", .arr (m.eqs.map boolsToJson).toArray)])]))
+
+def handleKernel (req : Json) : R Json := do
+  let c₁ ← asCS (← fld req "a")
+  let c₂ ← asCS (← fld req "b")
+  let m := modelKernel c₁ c₂
+  let asShape (j : Json) : R (Nat × Nat) := do
+    match (← asArr j) with
+    | [x, y] => pure ((← asNat x), (← asNat y))
+    | _ => .error "shape"
+  let obs : KernelObs Rat := {
+    shape₁ := (← asShape (← fld req "shape_a")), shape₂ := (← asShape (← fld req "shape_b")),
+    dense₁ := (← listF (asList asRat) req "dense_a"), dense₂ := (← listF (asList asRat) req "dense_b"),
+    storedZeros := (← boolF req "stored_zeros"), result := (← boolF req "result") }
+  let v := holdsKernel obs
+  let agree := m.result == obs.result && m.storedZeros == obs.storedZeros &&
+    decide (m.dense₁ = obs.dense₁) && decide (m.dense₂ = obs.dense₂) &&
+    decide (m.shape₁ = obs.shape₁) && decide (m.shape₂ = obs.shape₂)
+  -- `eliminate_zeros` twin: layout after the real in-place call, if supplied
+  let elimAgree ← match optFld req "elim_a" with
+    | none => pure true
+    | some j => do pure (decide (eliminateZeros c₁ = (← asCS j)))
+  pure (Json.mkObj (verdictToJson v ++ [("agree", .bool (agree && elimAgree)),
+    ("wf", .bool (c₁.wfb && c₂.wfb)),
+    ("model", Json.mkObj [("result", .bool m.result), ("stored_zeros", .bool m.storedZeros),
+      ("stored", natsToJson [storedCount c₁, storedCount c₂]), ("ne_count", toJson (neCount c₁ c₂)),
+      ("elim_a", csToJson (eliminateZeros c₁))])]))
+
+def handle (req : Json) : R Json := do
+  match (← strF req "op") with
+  | "pair" => handlePair req
+  | "family" => handleFamily req
+  | "kernel" => handleKernel req
+  | s => .error s!"C16: unknown op {s}"
+
 end Biom.C16
